@@ -22,6 +22,7 @@ type Doc struct {
 	Content   string    `json:"content"`
 	Links     []DocLink `json:"links"` // in document order
 	Nested    bool      `json:"nested,omitempty"`
+	Odd       bool      `json:"odd,omitempty"` // some link attribute is not a plain absolute https URL
 	LongWord  int       `json:"long_word,omitempty"` // length of the longest unbreakable token
 }
 
@@ -38,12 +39,33 @@ type docGen struct {
 	links []DocLink
 	long  int
 	nest  bool
+	odd   bool
 }
 
 func (g *docGen) link(kind string) int {
 	*g.next++
 	g.links = append(g.links, DocLink{ID: *g.next, Target: Target(*g.next), Kind: kind})
 	return *g.next
+}
+
+// Link attribute values as documents really carry them: relative references, other schemes, and strings no URL parser
+// accepts. Whatever the attribute says is what the number must open - none of them may cost a number or shift one.
+var oddTargets = []string{"/tags/T%dE", "T%dE", "../T%dE?x=1", "//t.test/T%dE", "https://t.test/%%zz/T%dE", "http://[::1/T%dE", ":T%dE", "https://t.test/T%dE#frag",
+	"mailto:T%dE@t.test", "https://user@t.test:8443/T%dE?q=1;r=2", "HTTPS://T.TEST/T%dE", "https://t.test/a%%20b/T%dE", "gemini://t.test/T%dE", "https://t.test:99999/T%dE", "ht!tp://T%dE"}
+
+// htmlTarget returns the attribute text for link id: mostly the plain target, sometimes an odd one (recorded as the link's target).
+func (g *docGen) htmlTarget(id int) string {
+	if rapid.SampledFrom([]int{0, 0, 0, 1}).Draw(g.t, "oddtarget") == 0 {
+		return Target(id)
+	}
+	target := fmt.Sprintf(rapid.SampledFrom(oddTargets).Draw(g.t, "oddtargetform"), id)
+	for i := range g.links {
+		if g.links[i].ID == id {
+			g.links[i].Target = target
+		}
+	}
+	g.odd = true
+	return target
 }
 
 var syllables = []string{"a", "be", "co", "da", "el", "fi", "go", "hu", "is", "jo", "ka", "li", "mo", "nu", "or", "pa", "qu", "re", "so", "tu"}
@@ -118,7 +140,7 @@ func (g *docGen) inline(depth int, inAnchor bool) string {
 				inner += " " + g.inline(depth-1, true)
 			}
 			g.anchorDepth--
-			b.WriteString(fmt.Sprintf(`<a href="%s">%s</a>`, Target(id), inner))
+			b.WriteString(fmt.Sprintf(`<a href="%s">%s</a>`, g.htmlTarget(id), inner))
 		default:
 			b.WriteString(g.media())
 		}
@@ -216,7 +238,7 @@ func (g *docGen) blocks(depth int, inAnchor bool) string {
 func GenHTML(t *rapid.T, next *int, depth int) Doc {
 	g := &docGen{t: t, next: next}
 	content := g.blocks(depth, false)
-	return Doc{MediaType: "text/html", Content: content, Links: g.links, Nested: g.nest, LongWord: g.long}
+	return Doc{MediaType: "text/html", Content: content, Links: g.links, Nested: g.nest, Odd: g.odd, LongWord: g.long}
 }
 
 // ---------------------------------------------------------------- Markdown
@@ -291,7 +313,7 @@ func GenMarkdown(t *rapid.T, next *int, depth int) Doc {
 			blocks = append(blocks, "---")
 		}
 	}
-	return Doc{MediaType: "text/markdown", Content: strings.Join(blocks, "\n\n"), Links: g.links, Nested: g.nest, LongWord: g.long}
+	return Doc{MediaType: "text/markdown", Content: strings.Join(blocks, "\n\n"), Links: g.links, Nested: g.nest, Odd: g.odd, LongWord: g.long}
 }
 
 // ---------------------------------------------------------------- gemtext
